@@ -140,6 +140,9 @@ def forEachSteps {α ρ σ : Type} (l : List α) (start : Int) (init : σ) (f : 
 /-- `l[i]` on a list of records (out of range: Go panics; junk: the default record) -/
 def listAt {α : Type} [Inhabited α] (l : List α) (i : Int) : α := if 0 ≤ i then l.getD i.toNat default else default
 
+/-- `l[i]` on a list whose element type is abstract (a Go type parameter): out of range (Go panics) gives the supplied zero value -/
+def listAtD {α : Type} (l : List α) (i : Int) (z : α) : α := if 0 ≤ i then l.getD i.toNat z else z
+
 /-- indices of `for i := a; i < b; i++` -/
 def rangeUp (a b : Int) : List Int := (List.range (b - a).toNat).map (fun k => a + Int.ofNat k)
 
